@@ -544,10 +544,33 @@ def hvMatches (e : HV) (t : Bytes) : Bool :=
   | .secs ns => textStatesSecs t ns
   | .date => true
 
+def isDigitB (c : Nat) : Bool := 48 ≤ c && c ≤ 57
+
+/-- the shape `fmt` gives the text: `%e` = `[-]d.dddddde±dd[d]`, `%.6f` = `[-]d+.dddddd` (model = code; the
+oracle itself only asks that the text states the value to its printed precision) -/
+def hvShape (e : HV) (t : Bytes) : Bool :=
+  let t := match t with
+    | 45 :: r => r
+    | r => r
+  match e with
+  | .sci _ =>
+    match t with
+    | d :: 46 :: r =>
+      isDigitB d && (r.take 6).all isDigitB && (r.take 6).length == 6 &&
+      (match r.drop 6 with
+       | 101 :: sg :: ex => (sg == 43 || sg == 45) && ex.all isDigitB && 2 ≤ ex.length
+       | _ => false)
+    | _ => false
+  | .secs _ =>
+    let ip := t.takeWhile (· ≠ 46)
+    let fp := (t.dropWhile (· ≠ 46)).drop 1
+    !ip.isEmpty && ip.all isDigitB && fp.all isDigitB && fp.length == 6
+  | _ => true
+
 /-- field-wise comparison of a parsed LJH 2.2 header with the expected one, in order -/
 def kvsMatch : List (Bytes × HV) → List (Bytes × Bytes) → Bool
   | [], [] => true
-  | (k, e) :: es, (k', t) :: ts => k == k' && hvMatches e t && kvsMatch es ts
+  | (k, e) :: es, (k', t) :: ts => k == k' && hvMatches e t && hvShape e t && kvsMatch es ts
   | _, _ => false
 
 /-! #### JSON subset reader (objects, arrays, strings, numbers as text, literals) -/
